@@ -78,10 +78,10 @@ def lazy_jobs(thorough):
     return J
 
 
-def gcfg(lo, hi, maxexp, maxmut, maxfaults, sim):
+def gcfg(lo, hi, maxexp, maxmut, maxfaults, sim, charmuts=None):
     invs = ["TypeOK", "DepthOK", "StmtBound", "OnlyTerminalsWhenComplete", "Export"]
     return ("SPECIFICATION Spec\nCONSTANTS\n TargetLo = %d\n TargetHi = %d\n MaxExp = %d\n MaxDepth = 8\n MaxMut = %d\n"
-            " MaxFaults = %d\n CharMuts = %s\n Sim = %s\n" % (lo, hi, maxexp, maxmut, maxfaults, "TRUE" if maxmut else "FALSE",
+            " MaxFaults = %d\n CharMuts = %s\n Sim = %s\n" % (lo, hi, maxexp, maxmut, maxfaults, "TRUE" if (maxmut if charmuts is None else charmuts) else "FALSE",
                                                                 "TRUE" if sim else "FALSE")
             + "".join("INVARIANT %s\n" % i for i in invs) + "CHECK_DEADLOCK FALSE\n")
 
@@ -95,7 +95,7 @@ def grammar_jobs(thorough, seed):
     if not thorough:
         job("G1: every 1-statement program, <= 3 expansions, <= 1 planted fault", gcfg(1, 1, 3, 0, 1, False), exhaustive=True)
         job("G2: every 2-statement program, <= 3 expansions", gcfg(2, 2, 3, 0, 0, False), exhaustive=True)
-        job("GM: every single mutation of every 1-expansion program", gcfg(1, 1, 1, 1, 0, False), exhaustive=True)
+        job("GM: every single token mutation of every 1-expansion program", gcfg(1, 1, 1, 1, 0, False, charmuts=False), exhaustive=True)
         job("S1: simulated 1-4 statements, <= 3 mutations", gcfg(1, 4, 100000, 3, 1, True), sim=1500, depth=400, sd=seed * 7 + 1, workers=1)
         job("S2: simulated 5-25 statements, <= 3 mutations", gcfg(5, 25, 100000, 3, 2, True), sim=250, depth=1500, sd=seed * 7 + 2, workers=1)
         job("S3: simulated 26-60 statements, <= 3 mutations", gcfg(26, 60, 100000, 3, 2, True), sim=100, depth=3000, sd=seed * 7 + 3, workers=1)
@@ -262,7 +262,7 @@ def main(run):
         run.note("grammar_classes_never_generated", unused)
     items = sorted(((i, t) for t, i in texts.index.items()))
     bytext = {i: t for i, t in items}
-    cpu = 2.0
+    cpu = 1.0
     t0 = time.time()
     out = pmap(G.run_chunk, [(c, G.HANDLERS, cpu) for c in G.chunks(items, 60 if not thorough else 200)])
     run.note("assembling_wall_s", round(time.time() - t0, 1))
@@ -295,43 +295,54 @@ def main(run):
         if v == "bad" and idx not in bad:
             bad[idx] = (h, o, clause)
     run.note("rejected_traces_texts", len(bad))
-    confirm_cap = 400 if thorough else 40
-    n_cyc_unconfirmed = 0
-    groups = {}                               # signature -> [count, shortest text, o, tags, handler]
+    # confirmation in a process of its own (5 s of CPU); hangs of texts with a cyclic definition (the open
+    # finding) are confirmed only up to a cap, the rest is reported from the first run
+    confirm_cap = 200 if thorough else 6
+    tasks = []
     cyc_seen = 0
+    unconfirmed = []
     for idx, (h, o, clause) in bad.items():
         text = bytext[idx]
-        tags = G.shape_tags(text, o[0], o[1])
-        cyclic = "shape:cyclic-symbol-definition" in tags
         if clause == "malformed":
             raise MachineryError(f"malformed trace for {text!r}")
-        if cyclic and o[0] == "hang":
-            cyc_seen += 1
-            if cyc_seen > confirm_cap:
-                n_cyc_unconfirmed += 1
-                report_bad(run, text, o, tags + ["handler:" + h], "not confirmed in a fresh process (cap)")
-                continue
-        o2 = G.fresh(text, h, cpu=5.0)            # confirmation in a process of its own, 5 s of CPU
-        tr2 = trace_of(o2)
-        errs = any(e["k"] == "report" and e["sev"] != "warning" for e in tr2[:-1])
-        good = (o2[0] == "ok" and not errs) or (o2[0] == "error" and errs)
-        if good:
+        if o[0] == "hang":
+            tags = G.shape_tags(text, o[0], o[1])
+            if "shape:cyclic-symbol-definition" in tags:
+                cyc_seen += 1
+                if cyc_seen > confirm_cap:
+                    unconfirmed.append((text, o, tags + ["handler:" + h]))
+                    continue
+        tasks.append((idx, text, h, 5.0))
+    groups = {}                               # signature -> [count, shortest text, o, tags, handler]
+    for idx, o2, sig, tags in pmap(G.confirm_task, tasks):
+        if sig == "good":
             run.bump("bad_outcomes_not_confirmed_in_fresh_process")
             continue
-        tags2 = G.shape_tags(text, o2[0], o2[1]) + ["handler:" + h]
-        if "shape:cyclic-symbol-definition" not in tags2:
-            tags2.append("shape:" + shape_of(text, o2))
-        sig = (o2[0], (o2[1] or "").split(" @ ")[-1] if o2[0] == "exception" else "", tuple(t for t in tags2 if t.startswith("shape:")),
-               "silent" if (o2[0] == "error" and not errs) else "", "latch" if (o2[0] == "ok" and errs) else "")
-        g = groups.setdefault(sig, [0, text, o2, tags2, h])
+        text, h = bytext[idx], bad[idx][0]
+        cyc = "shape:cyclic-symbol-definition" in tags
+        key = (sig, cyc)
+        g = groups.setdefault(key, [0, text, o2, tags, h])
         g[0] += 1
         if len(text) < len(g[1]):
-            g[1], g[2], g[3], g[4] = text, o2, tags2, h
-    run.note("cyclic_hangs_reported_without_confirmation", n_cyc_unconfirmed)
-    for sig, (cnt, text, o2, tags2, h) in groups.items():
-        what = {"hang": "never terminates", "exception": "internal exception", "error": "fails without an error diagnostic",
+            g[1], g[2], g[3], g[4] = text, o2, tags, h
+    run.note("cyclic_hangs_reported_without_confirmation", len(unconfirmed))
+    for text, o, tags in unconfirmed:
+        report_bad(run, text, o, tags, "grammar text with a cyclic definition never terminates (first run; confirmation capped)")
+    # shortest example of every kind of bad run, minimised (not for the open finding: its examples are known)
+    todo = [(k, g) for k, g in groups.items() if not (k[1] and k[0] in ("hang", "exception:DeferredCycle@deferred.py:__enter__", "exception:RecursionError"))]
+    mins = pmap(G.minimise_task, [(g[1], g[4], k[0], 2.0 if k[0] == "hang" else 5.0, 30 if k[0] == "hang" else 120) for k, g in todo])
+    for (k, g), small in zip(todo, mins):
+        g.append(small)
+    for (sig, cyc), g in groups.items():
+        cnt, text, o2, tags, h = g[:5]
+        small = g[5] if len(g) > 5 else text
+        what = {"hang": "never terminates", "exception": "dies with an internal exception", "error": "fails without an error diagnostic",
                 "ok": "succeeds although an error was reported"}[o2[0]]
-        report_bad(run, text, o2, tags2, f"grammar text ({cnt} texts of this shape, handler {h}) {what}", {"count": cnt})
+        tags = list(tags) + ["handler:" + h]
+        if not cyc:
+            tags.append("shape:" + sig)
+        report_bad(run, small, o2, tags, f"grammar text ({cnt} texts of this kind; handler {h}) {what}",
+                   {"count": cnt, "signature": sig, "unminimised_example": text if small != text else None})
     good_long = [t for t in bytext.values() if t.count("\n") >= 30]
     if good_long:
         run.sample({"source": good_long[0][:600], "note": "a simulated long program (truncated)"})
@@ -340,25 +351,9 @@ def main(run):
     run.exhaustive = False
     run.assumptions += ["the renderer harness/grammar.py maps token classes to text (trusted)",
                         "bounds of DESIGN section 4: repeat/align/shift counts are small literals (texts outside are dropped and counted)",
-                        "hang = 2 s of CPU time without finishing (confirmed with 5 s in a fresh process)",
+                        "hang = 1 s of CPU time without finishing in the first pass, confirmed with 5 s of CPU time in a fresh process",
                         "Lazy.tla: MaxHeap/MaxStk/MaxMag bound the model; 'diverged' predictions are confirmed by replay"]
     run.note("wall_total_s", round(time.time() - t_start, 1))
-
-
-def shape_of(text, o):
-    """a coarse, stable description of an unclassified bad run (for the report / proposed findings)"""
-    if o[0] == "exception":
-        e = o[1] or ""
-        name = e.split(":")[0]
-        if "loop.mac" in text and name == "RecursionError":
-            return "recursive-include"
-        where = e.split(" @ ")[-1] if " @ " in e else ""
-        return (name + "@" + where).replace(" ", "")
-    if o[0] == "hang":
-        return "hang-unclassified"
-    if o[0] == "error":
-        return "failure-without-diagnostic"
-    return "success-after-error"
 
 
 def lazy_part(run, lazy_res, thorough):
